@@ -17,14 +17,36 @@ EXCEPTIONS: Dict[Tuple[str, str], str] = {
 }
 
 
-def check(ctx, rule: str, modules: Iterable[str], param: str = "revision") -> int:
+def _class_has_attr(prog, cls, param: str) -> bool:
+    """the class (or a base) declares `param: T` in its body or stores `self.param` in one of its methods"""
+    for k in prog.mro(cls):
+        for st in k.node.body:
+            if isinstance(st, ast.AnnAssign) and isinstance(st.target, ast.Name) and st.target.id == param:
+                return True
+        for fl in k.methods.values():
+            for f in fl:
+                for n_ in ast.walk(f.node):
+                    if isinstance(n_, (ast.Assign, ast.AnnAssign)):
+                        for t in (n_.targets if isinstance(n_, ast.Assign) else [n_.target]):
+                            if isinstance(t, ast.Attribute) and t.attr == param and isinstance(t.value, ast.Name) and t.value.id == "self":
+                                return True
+    return False
+
+
+def check(ctx, rule: str, modules: Iterable[str], param: str = "revision", self_attr: bool = False) -> int:
+    """self_attr: a method of a class that carries `self.<param>` counts as a caller that was asked for a specific <param> too."""
     prog, chk = ctx.prog, ctx.chk
     mods = set(modules)
     n = 0
+    attr_cache: Dict[str, bool] = {}
     for fn in CG.all_functions(prog):
         if fn.module.relpath not in mods:
             continue
         has = param in fn.params()
+        if not has and self_attr and fn.cls is not None and not fn.is_staticmethod and fn.params()[:1] == ["self"]:
+            if fn.cls.qual not in attr_cache:
+                attr_cache[fn.cls.qual] = _class_has_attr(prog, fn.cls, param)
+            has = attr_cache[fn.cls.qual]
         if not has:
             continue
         for c in A.calls_in(fn.node):
@@ -43,6 +65,21 @@ def check(ctx, rule: str, modules: Iterable[str], param: str = "revision") -> in
                 idx = ps.index(param) if param in ps else 99
                 passed = len(c.args) > idx or any(isinstance(a, ast.Starred) for a in c.args)
             construct = f"{fn.qual} -> {g.name}"
+            # handed on as a literal (e.g. after a helper with a default was inlined: get_db(family, "latest")): not the caller's revision
+            lit = None
+            for k in c.keywords:
+                if k.arg == param and isinstance(k.value, ast.Constant):
+                    lit = k.value
+            if lit is None and passed and not any(k.arg == param for k in c.keywords):
+                ps2 = g.params()
+                if g.name in ("__init__", "__new__") or (g.cls is not None and not g.is_staticmethod):
+                    ps2 = ps2[1:]
+                i2 = ps2.index(param) if param in ps2 else 99
+                if len(c.args) > i2 and isinstance(c.args[i2], ast.Constant):
+                    lit = c.args[i2]
+            if lit is not None and (fn.qual, g.name) not in EXCEPTIONS:
+                chk.bad(rule, construct, f"`{norm(c)[:90]}` passes the constant {lit.value!r} as `{param}` although the caller was asked for a specific {param}", f"{param}={param}", A.loc(fn.module.relpath, c))
+                continue
             if passed:
                 chk.ok(rule, construct, f"`{param}` is handed on")
             elif (fn.qual, g.name) in EXCEPTIONS:
